@@ -32,6 +32,10 @@ THEOREMS = [
     "C13_source_shape",
     "C13_stream_ticks_complete",
     "C13_tick_stream_shape",
+    "C13_woken_run_not_idle",
+    "C13_woken_run_resumed",
+    "C13_idle_run_reloaded_by_send",
+    "C13_idle_mark_shape",
 ]
 LEAN_TARGETS = ["WfProps.C13"]
 EXPLANATION = (
@@ -61,7 +65,19 @@ EXPLANATION = (
     "Tie: `stream` op on the table's own sequence column for logs below, at and beyond 1, 2, 3 pages (page size read from the source on every run). Search: stream_ticks, get_ticks and "
     "stream_workflow_ticks of both stores against what append_tick was given (a second run interleaved); a chain persisting more than two pages of ticks restarted from the sqlite and memory "
     "stores at stops beyond one and two pages and after its end (same result and state store as uninterrupted; the restart must replay every persisted tick once, in order). The harness' "
-    "notion of 'the persisted log' is the record of append_tick calls, not a read of the store."
+    "notion of 'the persisted log' is the record of append_tick calls, not a read of the store. "
+    "The full server stack (WorkflowServer always puts IdleReleaseDecorator around PersistenceDecorator, and the start query reads the idle marker that layer maintains): model RowMark "
+    "(idle announcement sets the marker; a returned send_event clears it, reloading a released run first; release; process stop) and restartHandler (marker set: the row is skipped, else restartRun). "
+    "C13_woken_run_not_idle: after ANY history, once a send_event has returned and the run has not announced idleness again, the row does not carry the marker; C13_woken_run_resumed: such a row is "
+    "the start query's next `restart` verdict and its restart is restartRun (so the state theorems apply); C13_idle_run_reloaded_by_send: a row that does carry it is skipped and the next send brings "
+    "the run back and clears it; C13_idle_mark_shape pins the four source facts the model rests on (announcement writes idle_since before publishing; send_event clears it on the in-memory path and "
+    "reloads on the other, before the tick is handed on; the reload clears it after workflow.run). Tie: `rowmark` (marker / in-memory flag after the events the harness saw, at every returned send and "
+    "every stop, against the handler row and _active_run_ids) and `restartrow` (restart decision with the marker computed from those events, not read from the store). Search: generated runs on the "
+    "full stack that go idle (wait_for_event, two waits in a row, human-in-the-loop request answered through another step), are answered while in memory (idle_timeout 3600 / 60 / 2 s) or after "
+    "their release (2 s, late answer), and then have a gated chain or fan-out/collect to do; stopped at every persisted tick AND at every instant of the uninterrupted run at which nothing was "
+    "runnable (the same prefixes with every command executed: the really idle run, its row marked); rules: a run whose persisted reducer state has work queued or in progress is resumed by the restart "
+    "(C13/run_with_work_in_progress_not_resumed:<how it was woken>), its row does not carry the marker at the stop (C13/busy_run_marked_idle_in_store:…) nor when the waking send_event has returned "
+    "(C13/row_marked_idle_after_send_returned:in_memory|reload), and every restart ends with the uninterrupted result (a really idle run is skipped by the restart and reloaded by the answer)."
 )
 LEVEL_TEXT = "proof (refuted clauses recorded as known findings; quiescent-prefix part proved)"
 ASSUMPTIONS = suite.ENGINE_ASSUMPTIONS + [
@@ -73,10 +89,12 @@ ASSUMPTIONS = suite.ENGINE_ASSUMPTIONS + [
     "the model replays with the live configuration (catch_error tables included): true of the code since the repair fix-C13 (context_from_ticks validates first); on the unrepaired tree C13_source_shape and the `restart` correspondence fail",
     "C13_state_kept assumes the live state's running flag is set (it is after the start tick unless the run ended); theorems are about logs of runs started fresh (logs that span a resume: C13_refuted_second_restart)",
     "postgres / DBOS / agent-data stores are not run (their paginated stream_ticks are separate code with the same page loop)",
+    "RowMark: memory / sqlite store calls never yield, so an idle announcement, a send_event and a release are atomic with respect to each other (the interleavings with stores that suspend are C26 / C36, model Lifecycle); the harness' idle-marker events are its own observations (WorkflowIdleEvent at the innermost adapter, return of the idle layer's send_event, _release_idle_handler dropping the run), never a read of the handler row",
+    "full-stack family: no timers (retry delays, waiter timeouts) -- a run woken by a timer of the dead process is C14's subject and is classified :internal_wakeup; stop points at which an event sent with ctx.send_event is persisted while its sender's step result is not are skipped in this family (counted; see the report on C13/wrong_result_after_event_sent_again_by_reexecuted_step)",
     "TickStream: a run's sequence column is strictly increasing (append_tick assigns MAX(sequence)+1 per run under one writer; checked on every generated log)",
 ]
 TRUSTED_EXTRA = [
-    "harness/server/stack.py, harness/server/restart.py: in-process WorkflowServer wiring, store views with a kill switch and a record of every append_tick call (the reference log), tick-log truncation",
+    "harness/server/stack.py, harness/server/restart.py: in-process WorkflowServer wiring (with or without the idle-release layer), store views with a kill switch and a record of every append_tick call (the reference log), tick-log truncation, stops at a persisted tick or at the next quiet instant, call-through spies on the idle layer's send_event / _release_idle_handler",
 ]
 
 NOSTATE = "handler crashed before persisting any state; cannot resume"
@@ -128,6 +146,10 @@ def restart_lines(res: restart.CaseResult, pi: int, cfg_line: str) -> tuple[list
     nowR = runrw.now if runrw is not None else now
     op = "restart %s %s %s %s %s %s %s" % (enc.num(now0), enc.num(now), enc.num(nowR), "E 0 s 0 _ _", enc.num(res.spec.get("timeout")),
                                            _policy_tokens(reds), enc.lst([enc.tick(t) for t in ticks]))
+    if res.idle_timeout is not None:
+        # the full stack: what the model's start query sees of the row is computed from the events the harness saw
+        # (idle announcements, returned sends, releases, earlier stops), not read from the store
+        op = "restartrow %s %s" % (enc.lst(row_tokens(res.rowevs[: res.phases[pi - 1].rowevs_at_stop])), op[len("restart "):])
     if ph.active_after_start:
         if runrw is None:
             exp = "resume <no runner observed>"
@@ -150,6 +172,32 @@ def restart_lines(res: restart.CaseResult, pi: int, cfg_line: str) -> tuple[list
             rs = "_" if ph.result_at_start is None else enc.pub(ph.result_at_start)
             exp = f"finalize {st} result {rs} error {err}"
     return [cfg_line, op], ["ok", exp], info
+
+
+ROW_TOKEN = {"idle": "I", "send": "S", "released": "R", "stop": "P"}
+
+
+def row_tokens(evs: list) -> list[str]:
+    return [ROW_TOKEN[e[0]] for e in evs]
+
+
+def rowmark_lines(r: restart.CaseResult, ops: list[str], exp: list[str], owner: list, payload: dict, out: Outcome) -> None:
+    """K for the idle marker: after every send_event that returned and at every stop, the model's marker / in-memory flag
+    for the events seen so far against the handler row and `_active_run_ids` of the real stack"""
+    if r.idle_timeout is None:
+        return
+    for i, e in enumerate(r.rowevs):
+        if e[0] == "send" and e[1].get("row_idle") is not None:
+            ops.append("rowmark " + enc.lst(row_tokens(r.rowevs[: i + 1])))
+            exp.append("idle %d mem %d" % (1 if e[1]["row_idle"] else 0, 1 if e[1]["mem_after"] else 0))
+            owner.append(payload)
+            out.count("K:rowmark:send:" + ("in_memory" if e[1]["mem_before"] else "reload"))
+    for ph in r.phases:
+        if ph.crashed_at is not None and ph.row_idle_at_stop is not None and ph.mem_at_stop is not None:
+            ops.append("rowmark " + enc.lst(row_tokens(r.rowevs[: ph.rowevs_at_stop])))
+            exp.append("idle %d mem %d" % (1 if ph.row_idle_at_stop else 0, 1 if ph.mem_at_stop else 0))
+            owner.append(payload)
+            out.count("K:rowmark:stop")
 
 
 def cfg_line_of(res: restart.CaseResult) -> str:
@@ -227,6 +275,19 @@ def check_persist_before_effects(r: restart.CaseResult, out: Outcome, payload: d
         out.violations.append(Violation("C13/persisted_log_differs_from_processed_ticks", f"first difference at tick {i}", payload))
 
 
+def resend_exposed(base: restart.CaseResult, k: int) -> list:
+    """events in the first k persisted ticks that were sent with ctx.send_event by an invocation whose own completion is not
+    among those k ticks: [(sender step, sender's input uid, sent uid)].  A restart re-executes that invocation from the top
+    (it is in progress in the replayed state), and it sends the already accepted event again."""
+    from workflows.runtime.types import ticks as T
+
+    prefix = base.ticks[:k]
+    accepted = {getattr(t.event, "uid", None) for t in prefix if isinstance(t, T.TickAddEvent)}
+    done = {(t.step_name, getattr(t.event, "uid", None)) for t in prefix if isinstance(t, T.TickStepResult)}
+    return [(s_[1], s_[2], s_[5]["new_uid"]) for s_ in base.phase_steps(0)
+            if s_[0] == "sent" and s_[5].get("new_uid") in accepted and (s_[1], s_[2]) not in done]
+
+
 def judge_single(base: restart.CaseResult, r: restart.CaseResult, k: int, out: Outcome, payload: dict) -> str:
     """one stop after persisted tick k (1 <= k <= n) and one restart; returns a tag for the distribution"""
     n = len(base.ticks)
@@ -278,10 +339,77 @@ def judge_single(base: restart.CaseResult, r: restart.CaseResult, k: int, out: O
         kindw = "wrong_store"
     sig = f"C13/{kindw}_after_{loss}" if loss else f"C13/resumed_run_{kindw}"
     vol = r.phases[0].volatile or {}
+    resent = resend_exposed(base, k)
+    again = [x for x in resent if any(s_[0] == "sent" and s_[5].get("new_uid") == x[2] for s_ in r.phase_steps(1))]
+    if again and kindw in ("wrong_result", "wrong_store"):
+        # a different way of losing the result: the accepted event is delivered twice (and displaces another one)
+        out.violations.append(Violation(f"C13/{kindw}_after_event_sent_again_by_reexecuted_step",
+                                        f"stop after persisted tick {k} of {n} ({enc.tick(base.ticks[k - 1])[:60]}): the log holds the event(s) {[x[2] for x in again]} sent with "
+                                        f"ctx.send_event by {[(x[0], x[1]) for x in again]}, whose own step result is not persisted yet; the restart re-executes that invocation and it "
+                                        f"sends them again: uninterrupted {want[0]} {want[1]}, after restart {got[0]} {got[1]}; invocations entered after the restart {entered(r, 1)[:8]}", payload))
+        return kindw + ":event_sent_again"
     out.violations.append(Violation(sig, f"stop after persisted tick {k} of {n} ({enc.tick(base.ticks[k - 1])[:60]}): uninterrupted {want[0]} {want[1]}, "
                                          f"after restart {got[0]} {got[1]} error={r.error!r}{' (state store ' + want[2][:80] + ' vs ' + got[2][:80] + ')' if kindw == 'wrong_store' else ''}; volatile at the stop: buffer {vol.get('buffer')} (events {vol.get('buffer_events')}), "
                                          f"mailbox {vol.get('mailbox')} (events {vol.get('mailbox_events')}), timers {vol.get('timers')}", payload))
     return kindw + (":" + loss if loss else "")
+
+
+def wake_cause(evs: list) -> str:
+    """how the run came by the work it has, from the harness' own record of the idle marker's events before the stop"""
+    last_idle = max((i for i, e in enumerate(evs) if e[0] == "idle"), default=-1)
+    last_send = max((i for i, e in enumerate(evs) if e[0] == "send"), default=-1)
+    if last_idle < 0:
+        return "never_idle"
+    if last_send > last_idle:
+        return "woken_in_memory" if evs[last_send][1].get("mem_before") else "woken_by_reload"
+    return "internal_wakeup"  # no send since the announcement: a timer of the dead process (property C14's subject)
+
+
+def judge_idle_layer(base: restart.CaseResult, r: restart.CaseResult, k: int, out: Outcome, payload: dict) -> str | None:
+    """the full server stack (idle-release layer around persistence), one stop after persisted tick k < n: a run that has
+    work queued or in progress in its persisted reducer state is resumed by the restart; and (store side, stated on its
+    own) its handler row does not carry the idle marker at the stop.  Oracles: the reducer state after the k-th tick as the
+    harness observed it, and the harness' own record of announcements / sends -- not the handler row."""
+    if r.idle_timeout is None or len(r.phases) < 2:
+        return None
+    n = len(base.ticks)
+    p0, p1 = r.phases[0], r.phases[1]
+    vol = p0.volatile or {}
+    busy = vol.get("inflight", 0) > 0
+    cause = wake_cause(r.rowevs[: p0.rowevs_at_stop])
+    out.count(f"idle_layer:stop:{'busy' if busy else 'no_work'}:{cause}:row_{'idle' if p0.row_idle_at_stop else 'clear'}")
+    if not busy or k >= n:
+        return None
+    tag = None
+    where = (f"stop ({p0.mode}) after persisted tick {k} of {n} ({enc.tick(base.ticks[k - 1])[:50]}), {r.kind} store, idle_timeout {r.idle_timeout}: "
+             f"the persisted reducer state has {vol.get('inflight')} invocation(s) queued / in progress; before the stop the harness saw "
+             f"{row_tokens(r.rowevs[: p0.rowevs_at_stop])} (I = idle announced, S = send_event returned, R = released from memory)")
+    if p1.status_at_start == "running" and not p1.active_after_start:
+        out.violations.append(Violation(f"C13/run_with_work_in_progress_not_resumed:{cause}",
+                                        where + f"; the restarted server did not resume the run (handler left 'running', run not in memory after _on_server_start); "
+                                                f"{HORIZON}s later: handler {r.status} result {res_value(r.result)!r}, steps entered after the restart {entered(r, 1)[:4]}; "
+                                                f"uninterrupted: {base.status} {res_value(base.result)!r}; handler row at the stop: "
+                                                f"idle marker {'set' if p0.row_idle_at_stop else 'clear'}", payload))
+        tag = "busy_not_resumed:" + cause
+    if p0.row_idle_at_stop:
+        out.violations.append(Violation(f"C13/busy_run_marked_idle_in_store:{cause}",
+                                        where + "; the handler row read after the stop carries the idle marker (idle_since set), so the start query "
+                                                "(running, is_idle=False) of the next process does not see the run", payload))
+        tag = tag or ("busy_marked_idle:" + cause)
+    return tag
+
+
+def check_send_rows(r: restart.CaseResult, out: Outcome, payload: dict, later: list | None = None) -> None:
+    """store side, at the send itself: when the idle layer's send_event has returned (tick handed to the run), the handler row
+    does not carry the idle marker -- read before anything of the tick was processed"""
+    for e in r.rowevs:
+        if e[0] == "send":
+            out.count("S:send_row_checked:" + ("in_memory" if e[1].get("mem_before") else "reload"))
+            if e[1].get("row_idle"):
+                (later if later is not None else out.violations).append(Violation("C13/row_marked_idle_after_send_returned:" + ("in_memory" if e[1].get("mem_before") else "reload"),
+                                                f"{r.kind} store, idle_timeout {r.idle_timeout}: send_event({e[1].get('tick')} uid {e[1].get('uid')}) returned at t={e[1].get('t')} for a run "
+                                                f"{'in memory' if e[1].get('mem_before') else 'released from memory'}; the handler row still has idle_since set", payload))
+                return
 
 
 def judge_zero(r: restart.CaseResult, out: Outcome, payload: dict) -> None:
@@ -637,6 +765,51 @@ def wait_spec(rng: random.Random) -> dict:
             "det_uids": True}
 
 
+def woken_spec(rng: random.Random, p_fan: float = 0.5) -> dict:
+    """the full server stack (idle-release layer): the run goes idle waiting for input from outside (a step suspended in
+    wait_for_event, twice in a row, or a human-in-the-loop request on the stream with the answer accepted by another step), the
+    answer arrives while the run is still in memory (or, with a short idle_timeout and a late answer, after it was released),
+    and the run then has further gated work: a chain of steps or a fan-out / collect.  No timers anywhere (no retry delays,
+    no waiter timeouts): every stop point is within C13 proper.  Externals have fixed uids (the result is a function of them)."""
+    shape = rng.choice(["wait", "wait", "hitl", "two_waits"])
+    pre = [["gate"]] if rng.random() < 0.4 else []
+    if rng.random() < p_fan:
+        # tail: fan-out / workers (retries without delay) / collect, as in the deterministic family; its start step takes T7
+        tail = specgen.gen_det_spec(rng)["steps"]
+        for st in tail:
+            if st["name"] == "s00":
+                st["name"], st["accepts"] = "s01", [7]
+            elif st["name"] != "s00" and (not st["script"] or st["script"][0] != ["gate"]):
+                st["script"].insert(0, ["gate"])
+    else:
+        tail = [{"name": "s01", "accepts": [7], "nw": 1, "retry": None, "script": [["gate"], ["store_incr", "n"], ["ret", "9"]]},
+                {"name": "s03", "accepts": [9], "nw": 1, "retry": None,
+                 "script": ([["gate"]] if rng.random() < 0.7 else []) + [["store_incr", "n"], ["ret", "stop", "uid"]]}]
+    if shape == "hitl":
+        head = [{"name": "s00", "accepts": [0], "nw": 1, "retry": None, "script": [["stream", 2], ["ret", "none"]]},
+                {"name": "s06", "accepts": [3], "nw": 1, "retry": None, "script": pre + [["ret", "7"]]}]
+        nsend = 1
+    else:
+        waits = [["wait", 3, None, None, "w01", None, "raise"]] + ([["wait", 3, None, None, "w02", None, "raise"]] if shape == "two_waits" else [])
+        head = [{"name": "s00", "accepts": [0], "nw": 1, "retry": None, "script": [["ret", "8"]]},
+                {"name": "s06", "accepts": [8], "nw": 1, "retry": None, "script": pre + waits + [["ret", "7"]]}]
+        nsend = len(waits)
+    idle_to = rng.choice([3600.0, 3600.0, 60.0, 2.0])
+    late = idle_to == 2.0 and rng.random() < 0.6  # the answer comes after the run was released from memory: reload path
+    steps = head + tail
+    rng.shuffle(steps)
+    return {"steps": steps, "det_uids": True, "_idle_timeout": idle_to, "_quiet_stops": True, "_skip_resend_stops": True,
+            "externals": [{"op": "send", "ty": 3, "k": 1 + i, "uid": 2001 + i, "when_idle": True, "idle_for": 3.0 if late else 0.0}
+                          for i in range(nsend)]}
+
+
+def load_woken_corpus() -> list[dict]:
+    p = os.path.join(suite.CORPUS_DIR, "c13_woken.json")
+    if os.path.exists(p):
+        return json.load(open(p))["cases"]
+    return []
+
+
 def wrong_deliveries(r: restart.CaseResult, pi: int) -> list:
     """wait_for_event calls of phase `pi` that returned an event violating the requirement they were made with"""
     return [(s[1], s[5].get("got_k"), s[5].get("want_k")) for s in r.phase_steps(pi)
@@ -656,8 +829,12 @@ def persist_lines(base: restart.CaseResult, ops: list[str], exp: list[str], owne
 
 
 def all_prefixes(spec: dict, seed: int, kind: str, out: Outcome, ops: list[str], exp: list[str], owner: list, tag: str,
-                 only: Any = None) -> restart.CaseResult | None:
-    base = restart.run_crash_case(copy.deepcopy(spec), seed, kind, horizon=HORIZON)
+                 only: Any = None, only_modes: list[str] | None = None) -> restart.CaseResult | None:
+    """`spec["_idle_timeout"]`: run on the full stack (idle-release layer around persistence) with that idle_timeout;
+    `spec["_quiet_stops"]`: besides the stop at the instant each tick is persisted, stop at every instant of the uninterrupted
+    run at which nothing was runnable (same prefixes, every command executed: e.g. the run really idle, its row marked)"""
+    idle_to = spec.get("_idle_timeout")
+    base = restart.run_crash_case(copy.deepcopy(spec), seed, kind, horizon=HORIZON, idle_timeout=idle_to)
     out.evaluations += 1
     payload0 = case_payload(spec, seed, kind, [])
     if base.status == "running":
@@ -676,10 +853,24 @@ def all_prefixes(spec: dict, seed: int, kind: str, out: Outcome, ops: list[str],
     ks = list(range(0, n + 1)) if only is None else (only(base) if callable(only) else only)
     if spec.get("_only_last"):
         ks = [n]
-    for k in ks:
-        r = restart.run_crash_case(copy.deepcopy(spec), seed, kind, crash_at=[k], horizon=HORIZON)
+    stops = [(k, (only_modes[i] if only_modes and i < len(only_modes) else "tick")) for i, k in enumerate(ks)]
+    if spec.get("_quiet_stops") and only is None:
+        stops += [(k, "quiet") for k in sorted(set(base.quiet_points)) if 1 <= k <= n]
+    if idle_to is not None:
+        rowmark_lines(base, ops, exp, owner, payload0, out)
+    later: list = []  # the store-side statement at the send itself is reported after what the restarts of this run showed
+    for k, mode in stops:
+        if spec.get("_skip_resend_stops") and only is None and mode == "tick" and 0 < k < n and resend_exposed(base, k):
+            # reported separately (unchanged code: C13/wrong_result_after_event_sent_again_by_reexecuted_step); this family is about
+            # the idle marker, its generated stream stays away from that trigger
+            out.count(f"{tag}:skipped_stop:sender_in_progress")
+            continue
+        r = restart.run_crash_case(copy.deepcopy(spec), seed, kind, crash_at=[k], horizon=HORIZON, idle_timeout=idle_to,
+                                   crash_modes=[mode])
         out.evaluations += 1
-        payload = case_payload(spec, seed, kind, [k])
+        payload = case_payload(spec, seed, kind, [k]) if mode == "tick" else case_payload(spec, seed, kind, [k], modes=[mode])
+        if mode == "quiet" and r.phases[0].crashed_at is not None:
+            k = r.phases[0].crashed_at  # the persisted prefix at the quiet instant
         if k == 0:
             judge_zero(r, out, payload)
             t = "prefix0"
@@ -692,9 +883,12 @@ def all_prefixes(spec: dict, seed: int, kind: str, out: Outcome, ops: list[str],
             if len(r.phases) > 1:
                 check_replay_input(r, 1, out, payload)
             check_store_reads(r, out, payload)
-            t = judge_single(base, r, k, out, payload)
-            out.nontrivial((json.dumps(spec, sort_keys=True), seed, kind, k))
-        out.count(f"{tag}:{t}")
+            t = judge_idle_layer(base, r, k, out, payload) or judge_single(base, r, k, out, payload)
+            if idle_to is not None:
+                rowmark_lines(r, ops, exp, owner, payload, out)
+                check_send_rows(r, out, payload, later)
+            out.nontrivial((json.dumps(spec, sort_keys=True), seed, kind, k) + (() if mode == "tick" else (mode,)))
+        out.count(f"{tag}:{t}" + ("" if mode == "tick" else ":quiet_stop"))
         if len(r.phases) > 1:
             o, e, info = restart_lines(r, 1, cfgl)
             ops += o
@@ -702,9 +896,18 @@ def all_prefixes(spec: dict, seed: int, kind: str, out: Outcome, ops: list[str],
             owner += [payload] * len(o)
             out.count("K:restart:" + e[1].split(" ")[0])
             out.count("K:replayed_ticks", info["replayed"])
+        if idle_to is not None and len(out.samples) < 8 and t.startswith("resumed_ok") and r.phases[0].row_idle_at_stop is not None \
+                and sum(1 for s_ in out.samples if isinstance(s_, dict) and "idle_layer" in s_) < 3 and wake_cause(r.rowevs[: r.phases[0].rowevs_at_stop]) != "never_idle":
+            out.sample({"idle_layer": True, "spec": spec, "store": kind, "stop_after_tick": k, "of": n, "mode": mode, "verdict": t,
+                        "events_before_stop": row_tokens(r.rowevs[: r.phases[0].rowevs_at_stop]), "row_idle_at_stop": r.phases[0].row_idle_at_stop,
+                        "resumed_by_restart": r.phases[1].active_after_start if len(r.phases) > 1 else None,
+                        "after_restart": outcome_of(r)[:2]})
         if len(out.samples) < 5 and 0 < k < n and t.startswith(("stuck", "resumed_ok")) and (len(out.samples) % 2 == (0 if t.startswith("stuck") else 1)):
             out.sample({"spec": spec, "store": kind, "stop_after_tick": k, "of": n, "tick": enc.tick(base.ticks[k - 1]), "verdict": t,
                         "uninterrupted": outcome_of(base)[:2], "after_restart": outcome_of(r)[:2], "volatile": r.phases[0].volatile})
+    if idle_to is not None:
+        check_send_rows(base, out, payload0, later)
+        out.violations += later[:3]
     return base
 
 
@@ -1156,7 +1359,7 @@ def replay_case(case: dict, out: Outcome, ops: list[str], exp: list[str], owner:
     c = case["crash"]
     spec, seed, kind, ks = c["spec"], c["seed"], c["kind"], list(c["crash_at"])
     if len(ks) <= 1:
-        all_prefixes(spec, seed, kind, out, ops, exp, owner, "replay", only=ks or None)
+        all_prefixes(spec, seed, kind, out, ops, exp, owner, "replay", only=ks or None, only_modes=c.get("modes"))
     else:
         second_restarts(spec, seed, kind, _FixedInts(ks), 1, out, ops, exp, owner)
 
@@ -1174,7 +1377,8 @@ def _run(env: Env) -> Outcome:
                 "classification; a family of steps suspended in wait_for_event with/without requirements answered from outside) plus hand-picked edge workflows for every exit kind, on the real server stack with memory and sqlite stores; "
                 "for every k in 0..n the process is stopped when the k-th tick is persisted and restarted; non-trivial = a stop at 1 <= k <= n that was "
                 "reached; distinct by (spec, schedule seed, store, k). K: model `restart`/`ctx`/`pick` ops on the same tick lines; plus logs of n ticks (n below/at/beyond 1..3 store pages, a second run interleaved) appended to a store and read back "
-                "(`stream` op), and one chain of > 2 pages of ticks restarted beyond each page boundary")
+                "(`stream` op), and one chain of > 2 pages of ticks restarted beyond each page boundary; the full stack with the idle-release layer: runs that go idle, are answered from outside "
+                "(in memory or after release) and have further gated work, stopped at every persisted tick and at every quiet instant (K: `rowmark`, `restartrow`)")
     rng = random.Random(env.rng.randrange(1 << 30))
     ops: list[str] = []
     exp: list[str] = []
@@ -1188,6 +1392,12 @@ def _run(env: Env) -> Outcome:
     # ---- corpus: the log read back page by page (store level), and a long run restarted beyond one / two pages (sqlite)
     for w in load_paging_corpus():
         paging_case(w, out, ops, exp, owner)
+    # ---- corpus: the full stack (idle-release layer): a run that went idle, was woken while in memory and is busy again,
+    #      stopped at every persisted tick and at every quiet instant
+    for w in load_woken_corpus():
+        c = w["crash"]
+        all_prefixes(c["spec"], c["seed"], c["kind"], out, ops, exp, owner, "woken_corpus:" + c["kind"], only=c.get("crash_at") or None,
+                     only_modes=c.get("modes"))
     for name, spec in EDGE_SPECS:
         for kind in (("memory", "sqlite") if name in ("linear", "fails") else ("memory",)):
             all_prefixes(spec, 11, kind, out, ops, exp, owner, "edge:" + name)
@@ -1220,6 +1430,11 @@ def _run(env: Env) -> Outcome:
     # ---- waits answered from outside
     for _ in range(env.budget(2, 24)):
         all_prefixes(wait_spec(rng), rng.randrange(1 << 30), "memory", out, ops, exp, owner, "wait")
+    # ---- the full stack: runs that go idle, are woken from outside and have further work
+    n_wm, n_ws = env.budget(2, 40), env.budget(1, 12)
+    for i in range(n_wm + n_ws):
+        all_prefixes(woken_spec(rng, 0.5 if thorough else 0.25), rng.randrange(1 << 30), "memory" if i < n_wm else "sqlite", out, ops, exp, owner,
+                     "woken:" + ("memory" if i < n_wm else "sqlite"))
     # ---- second restarts (logs that span a resume)
     for _ in range(env.budget(2, 40)):
         second_restarts(det_spec(rng), rng.randrange(1 << 30), "memory", rng, 2, out, ops, exp, owner)
@@ -1234,7 +1449,7 @@ def _run(env: Env) -> Outcome:
     # ---- handler selection
     pick_corr(env, out, env.budget(8, 150), ops, exp, owner)
     # ---- malformed lines
-    bad = ["stream 0 1 1", "stream 3 2 1", "restart x", "ctx 1 2 P 0 1 TQ", "pick 1 1 0 0 1 1 1 bogus _ 0", "replay 1000 1000 P 0 2 TI", "status extra"]
+    bad = ["stream 0 1 1", "stream 3 2 1", "restart x", "rowmark 2 I", "rowmark 1 Q", "restartrow 1 I x", "ctx 1 2 P 0 1 TQ", "pick 1 1 0 0 1 1 1 bogus _ 0", "replay 1000 1000 P 0 2 TI", "status extra"]
     ops += bad
     exp += ["bad-op"] * len(bad)
     owner += [None] * len(bad)
